@@ -255,6 +255,17 @@ def run_unit(args):
                 res["violation"] = {"message": msg, "case": json.loads(blob), "phase": "generate"}
             except _Abort:
                 res["error"] = st["error"]
+            except BaseException as e:  # noqa
+                # Hypothesis reports "flaky" when a failing case passes on immediate re-execution.  The predicate is a pure function of
+                # the case and the library, so this means the LIBRARY's answer depended on what was called before (sticky state):
+                # the violation was genuinely observed on the real code and is reported, with that caveat, rather than hidden as a harness error.
+                if st["fail"] is not None and type(e).__name__ in ("Flaky", "FlakyFailure", "FlakyReplay", "ExceptionGroup", "BaseExceptionGroup"):
+                    blob, msg = st["fail"]
+                    res["violation"] = {"message": msg + "  [observed once; the same case passed when re-executed immediately afterwards, i.e. the "
+                                        "library's result depends on earlier calls - the replay file may not reproduce it in a fresh process]",
+                                        "case": json.loads(blob), "phase": "generate-flaky"}
+                else:
+                    raise
         # ---- stateful part (rule-based state machine over call histories) -----
         if sub.machine is not None and res["violation"] is None and res["error"] is None:
             import hypothesis
